@@ -368,10 +368,10 @@ def gen_errnest(rng, **_):
     return sc
 
 
-def gen_parraise(rng, idle=False, **_):
+def gen_parraise(rng, idle=False, wal=False, **_):
     """a parallel_handlers bus on which one handler raises (or returns an exception object) while sibling handlers of the same
     event are mid-flight - sleeping, or awaiting a child on a serial bus whose first of several handlers is running"""
-    sc = {'buses': [{'parallel': True, 'maxh': 50, 'wal': False}, {'parallel': rng.random() < 0.2, 'maxh': 50, 'wal': False}],
+    sc = {'buses': [{'parallel': True, 'maxh': 50, 'wal': wal}, {'parallel': rng.random() < 0.2, 'maxh': 50, 'wal': wal}],
           'types': {t: {'timeout': None} for t in 'ABCD'}, 'handlers': [], 'tasks': []}
     cb = rng.choice([1, 1, 0])                      # where the child lives
     hs = []
@@ -678,6 +678,22 @@ def gen_stop(rng, p_cancel=0.3, **_):
         sc['handlers'].append({'bus': 0, 'key': rng.choice([ty, ty, '*']), 'kind': kind, 'prog': prog})
         if kind == 'async' and rng.random() < 0.15:
             sc['handlers'][-1]['cleanup'] = rng.choice([1 / 64, 9 / 64, 17 / 64])
+    inline = rng.random() < 0.3
+    if inline:
+        # the first handler of the first event dispatched to bus 0 dispatches a child at once (before the stop begins) and awaits
+        # it; the child has several slow handlers, so that the stop can arrive while the first of them runs inside the await
+        cb = rng.choice([0] + others)
+        ct = rng.choice('CD')
+        for b_ in sc['buses']:
+            b_['parallel'] = False                # (as for bus 0: an orphaned parallel activation is not modelled, and the
+                                                  #  awaiting handler may be processing an event of any bus when the stop arrives)
+        for h in sc['handlers']:
+            if h['key'] == 'A':
+                h['key'] = 'B'
+        sc['handlers'].insert(0, {'bus': 0, 'key': 'A', 'kind': 'async',
+                                  'prog': [['dispatch', cb, ct, 0], ['await', 0], ['sleep', rng.choice([0, 1 / 64])]]})
+        for j in range(rng.choice([2, 2, 3])):
+            sc['handlers'].append({'bus': cb, 'key': ct, 'kind': 'async', 'prog': [['sleep', rng.choice([1 / 64, 3 / 64, 9 / 64])]]})
     for b in others:
         for _ in range(rng.randint(0, 2)):
             if rng.random() < 0.6:
@@ -690,9 +706,11 @@ def gen_stop(rng, p_cancel=0.3, **_):
         main.append(['dispatch', 0, rng.choice('AB'), i])
         if rng.random() < 0.2:
             main.append(['sleep', rng.choice([0, 1 / 64, 4 / 64])])
+    if inline:
+        main = [['dispatch', 0, 'A', 0]] + [[op[0], op[1], 'B', op[3] + 1] if op[0] == 'dispatch' else op for op in main]
     if others and rng.random() < 0.6:
         main.append(['dispatch', rng.choice(others), 'C', 10])
-    main.append(['sleep', rng.choice([0, 0, 1 / 64, 3 / 64, 9 / 64, 40 / 64])])
+    main.append(['sleep', rng.choice([0, 0, 1 / 64, 3 / 64, 9 / 64, 40 / 64]) if not inline else rng.choice([1 / 64, 2 / 64, 3 / 64, 5 / 64, 9 / 64])])
     cancelled = rng.random() < p_cancel
     if cancelled:
         main.append(['cancelrl', 0])
